@@ -587,7 +587,8 @@ def c11(tier, rng):
     if tier == "thorough":
         s = S()
         s.ev("spin 65534 0 pub2 1")
-        s.ev("spin 65540 70000 sub 1")
+        s.ev("spin 65540 70000 unsub 1")      # (not sub: every subscribe leaves a registration behind, 65540 of them make the model quadratic)
+        s.ev("spin 40 139000 sub 1")
         s.ev("spin 10 140000 pub1 1")
         out.append(case("wrap-twice", s.script(), ["wrap2"], release=False))
     # mixed kinds and clones, short
